@@ -390,6 +390,43 @@ class Check:
                 res.coverage[m.group(1)] = res.coverage.get(m.group(1), 0) + int(m.group(4))
         return res
 
+    def oracle(self, module, trace, name, sigfn, timeout=1800, xmx="16g", xss="64m", max_report=300, cfg=None, workers=16):
+        """E5 batch oracle: TLC evaluates every event of `trace` with `module`; lines printed as
+        <<"MISMATCH", l>> become violations (signature by sigfn(event)); <<"DRIFT", l>> is model drift only.
+        returns (number of events, mismatching lines, drift lines)"""
+        r = self.tlc(module, cfg=cfg, env={"TRACE": trace}, name=name, timeout=timeout, xmx=xmx, xss=xss, workers=workers)
+        bad = sorted(set(t[1] for t in r.tuples("MISMATCH")))
+        drift = sorted(set(t[1] for t in r.tuples("DRIFT")))
+        n = max(0, r.distinct - 65)   # minus the root and the 64 block states
+        if bad or drift:
+            evs = read_ndjson(trace)
+            for l in bad[:max_report]:
+                e = evs[l - 1]
+                self.violation(sigfn(e), {"kind": "oracle", "oracle": module, "event": e, "line": l})
+            if len(bad) > max_report:
+                self.log("... %d further mismatches not reported individually" % (len(bad) - max_report))
+            for l in drift[:5]:
+                self.drift.append({"oracle": module, "event": evs[l - 1]})
+        self.count(n_eval=n, validated=n - len(bad))
+        self.stage(name, events=n, mismatches=len(bad), drift=len(drift))
+        return n, bad, drift
+
+    def harness_ok(self, what, rc, out, err, replay=None):
+        """common crash protocol: the last stdout line must be DONE"""
+        lines = out.strip().splitlines()
+        if lines and lines[-1] == "DONE":
+            return True
+        tail = " ".join(lines[-2:])[-120:] if lines else ""
+        san = ""
+        m = re.search(r"(AddressSanitizer|UndefinedBehaviorSanitizer|runtime error|LeakSanitizer|ThreadSanitizer)[^\n]*", err or "")
+        if m:
+            san = m.group(0)[:160]
+        rep = {"kind": "crash", "what": what, "rc": rc, "stdout_tail": lines[-5:], "stderr": (err or "")[-4000:]}
+        if replay:
+            rep.update(replay)
+        self.violation("%s crash/hang: %s %s" % (what, tail, san), rep)
+        return False
+
     def expect_holds(self, res, what):
         """a TLC run on the specification itself must pass; otherwise it is a spec-level violation"""
         if not res.ok():
